@@ -99,6 +99,34 @@ st = run('nat', V9, '0 <= x --> (!y. P y)', [{'method_name': 'introduction', 'go
 full(st, 'live state')
 reimport(st, V9, 'introduction names x')
 
+print('11. forward step aimed at the final line while an earlier line already states the goal -> the final line is removed')
+st = run('logic', {'C': 'bool'}, 'C | ~C', [{'method_name': 'apply_backward_step', 'goal_id': '0', 'theorem': 'disjI1'},
+                                             {'method_name': 'apply_forward_step', 'goal_id': '2', 'fact_ids': ['1', '0'], 'theorem': 'force_disj_true2'}])
+print('  last line now states: %s   (goal: C | ~C)' % st.prf.items[-1].th)
+
+print('12. parse_proof keeps the variable declarations of a closed block in force (recorded: iterate.iterate_reflect step 20)')
+V12 = {'x': "'a => bool", 'a': "'a", 'Q': 'nat => bool'}
+st = run('nat', V12, '(!x. Q x) & x a', [{'method_name': 'apply_backward_step', 'goal_id': '0', 'theorem': 'conjI'},
+                                           {'method_name': 'introduction', 'goal_id': '0', 'names': 'x'}])
+full(st, 'live state')
+reimport(st, V12, 'block declares x::nat, a later line mentions the outer x')
+
+print('14. rewrite_goal_with_prev with an equation that changes nothing')
+V14 = {'a': "'a", 'f': "'a => 'a"}
+st = run('logic', V14, '(!x. f x = x) --> f (f a) = a',
+         [{'method_name': 'forall_elim', 'goal_id': '1', 'fact_ids': ['0'], 's': 'a'},
+          {'method_name': 'rewrite_fact_with_prev', 'goal_id': '2', 'fact_ids': ['0', '1']},
+          {'method_name': 'rewrite_goal_with_prev', 'goal_id': '3', 'fact_ids': ['2']}])
+full(st, 'after rewriting the goal with a = a')
+
+print('15. exists_elim on a goal that precedes assume / variable lines of its block')
+V15 = {'P': "'a => bool", 'Q': "'a => bool"}
+st = run('logic', V15, '(?x. P x) --> (?x. Q x) --> P = Q',
+         [{'method_name': 'exists_elim', 'goal_id': '2', 'fact_ids': ['1'], 'names': 'u'},
+          {'method_name': 'cut', 'goal_id': '2', 'goal': 'P = P'},
+          {'method_name': 'exists_elim', 'goal_id': '2', 'fact_ids': ['0'], 'names': 'v'}])
+full(st, 'after the second exists_elim (before the first one\'s lines)')
+
 print('10. ProofCache.insert_step edits the history entry in place')
 pkg = types.ModuleType('app'); pkg.__path__ = [os.path.join(REPO, 'app')]
 appmod = types.ModuleType('app.app')
